@@ -215,6 +215,31 @@ func init() {
 		p.advances = append(p.advances, advRec{before, p.now, true})
 		return p.C.True
 	}
+	// vSleepUntil(t): let virtual time pass up to instant t (ns): every timer due
+	// by then fires in order (the tasks they start run until idle).
+	harnessAPI["vSleepUntil"] = func(t *Task, fn *ssa.Function, args []Value) Value {
+		p := t.p
+		c := p.C
+		target := args[0].(*Term)
+		for n := 0; ; n++ {
+			if n > 100000 {
+				p.fail("inconclusive", "vSleepUntil: too many timer events")
+			}
+			tm := p.earliestTimer()
+			if tm == nil || !p.Branch(c.Sle(tm.deadline, target)) {
+				break
+			}
+			if p.Branch(c.Slt(p.now, tm.deadline)) {
+				p.now = tm.deadline
+			}
+			p.fire(tm)
+			t.runUntilIdle()
+		}
+		if p.Branch(c.Slt(p.now, target)) {
+			p.now = target
+		}
+		return nil
+	}
 	// vNondetDelay: a symbolic duration (ns); native replays get a value re-solved
 	// into [20 ms, 200 ms] when the path condition allows it.
 	harnessAPI["vNondetDelay"] = func(t *Task, fn *ssa.Function, args []Value) Value {
